@@ -583,15 +583,68 @@ pub fn tx(cfg: &TxCfg) -> BS<TxSpec> {
     let i = input(cfg);
     let o = output(cfg);
     let seg = if cfg.allow_segwit { prop_oneof![2 => Just(false), 1 => Just(true)].boxed() } else { Just(false).boxed() };
-    // very large vectors use small elements so that a block stays within a few MB
-    let mut small = cfg.clone();
-    small.script = weighted(vec![(3, t_p2pkh()), (1, t_p2sh()), (1, Just(vec![0x51u8]).boxed()), (1, t_witness(false))]);
-    small.scriptsig_len = (0usize..4).boxed();
-    small.allow_segwit = false;
-    let (i_small, o_small) = (input(&small), output(&small));
-    (prop_oneof![Just(1u32), Just(2u32), any::<u32>()], prop_oneof![2 => Just(0u32), 1 => any::<u32>()], nin.prop_flat_map(move |n| if n >= 250 { vec(i_small.clone(), n) } else { vec(i.clone(), n) }), nout.prop_flat_map(move |n| if n >= 250 { vec(o_small.clone(), n) } else { vec(o.clone(), n) }), seg)
+    // very large vectors are expanded from one generated seed (a per-element strategy tree for
+    // 65 536 elements costs proptest hundreds of MB); elements are small so that a block stays
+    // within a few MB
+    let max_value = cfg.max_value;
+    let big_in = move |n: usize| any::<u64>().prop_map(move |seed| cheap_inputs(n, seed)).boxed();
+    let big_out = move |n: usize| any::<u64>().prop_map(move |seed| cheap_outputs(n, seed, max_value)).boxed();
+    (prop_oneof![Just(1u32), Just(2u32), any::<u32>()], prop_oneof![2 => Just(0u32), 1 => any::<u32>()], nin.prop_flat_map(move |n| if n >= 250 { big_in(n) } else { vec(i.clone(), n).boxed() }), nout.prop_flat_map(move |n| if n >= 250 { big_out(n) } else { vec(o.clone(), n).boxed() }), seg)
         .prop_map(|(version, locktime, inputs, outputs, segwit)| TxSpec { version, locktime, inputs, outputs, segwit, dup_of: None })
         .boxed()
+}
+
+fn splitmix(x: &mut u64) -> u64 {
+    *x = x.wrapping_add(0x9e3779b97f4a7c15);
+    let mut z = *x;
+    z = (z ^ (z >> 30)).wrapping_mul(0xbf58476d1ce4e5b9);
+    z = (z ^ (z >> 27)).wrapping_mul(0x94d049bb133111eb);
+    z ^ (z >> 31)
+}
+
+/// `n` small inputs expanded deterministically from a generated seed
+pub fn cheap_inputs(n: usize, seed: u64) -> Vec<InSpec> {
+    let mut s = seed;
+    (0..n)
+        .map(|_| {
+            let r = splitmix(&mut s);
+            let src = if r & 3 == 0 { Src::Unknown((r >> 8) as u8, (r >> 16) as u32 & 3) } else { Src::Known((r >> 8) as u16) };
+            InSpec { src, script_sig: (0..(r >> 40) & 3).map(|k| (r >> (k * 8)) as u8).collect(), sequence: if r & 4 == 0 { 0xffff_ffff } else { (r >> 24) as u32 }, witness: vec![] }
+        })
+        .collect()
+}
+
+/// `n` small outputs (P2PKH / P2SH / trivial / P2WPKH shapes) expanded deterministically from a generated seed
+pub fn cheap_outputs(n: usize, seed: u64, max_value: u64) -> Vec<OutSpec> {
+    let mut s = seed;
+    (0..n)
+        .map(|_| {
+            let r = splitmix(&mut s);
+            let h: Vec<u8> = (0..20).map(|k| (splitmix(&mut s) >> (k % 7)) as u8).collect();
+            let script = match r & 7 {
+                0 => vec![0x51],
+                1 => {
+                    let mut v = vec![0xa9, 0x14];
+                    v.extend(&h);
+                    v.push(0x87);
+                    v
+                }
+                2 => {
+                    let mut v = vec![0x00, 0x14];
+                    v.extend(&h);
+                    v
+                }
+                _ => {
+                    let mut v = vec![0x76, 0xa9, 0x14];
+                    v.extend(&h);
+                    v.extend([0x88, 0xac]);
+                    v
+                }
+            };
+            let value = if max_value == u64::MAX { r >> 3 } else { (r >> 3) % (max_value / 65_536).max(1) };
+            OutSpec { value, script }
+        })
+        .collect()
 }
 
 pub fn coinbase(cfg: &TxCfg) -> BS<TxSpec> {
@@ -677,7 +730,12 @@ pub fn block(cfg: &ChainCfg, coin: Coin) -> BS<BlockSpec> {
     let aux = if coin.auxpow_threshold().is_some() { prop_oneof![1 => Just(None), 3 => auxpow(&cfg.tx).prop_map(Some)].boxed() } else { Just(None).boxed() };
     let dup = if cfg.dup_coinbase { prop_oneof![6 => Just(None), 1 => any::<u16>().prop_map(Some)].boxed() } else { Just(None).boxed() };
     let t: BS<TxSpec> = if cfg.dup_coinbase { (t, prop_oneof![12 => Just(None), 1 => any::<u16>().prop_map(Some)]).prop_map(|(mut t, d)| { t.dup_of = d; t }).boxed() } else { t };
-    (block_version(coin), cfg.time.clone(), any::<u32>(), any::<u32>(), aux, coinbase(&cfg.tx), cfg.ntx.clone().prop_flat_map(move |n| vec(t.clone(), n)), dup)
+    // blocks with very many transactions use transactions without the giant count classes, so
+    // that one block stays within tens of MB (16 shards hold several cases each)
+    let mut plain = cfg.tx.clone();
+    plain.big_counts = false;
+    let t_plain = tx(&plain);
+    (block_version(coin), cfg.time.clone(), any::<u32>(), any::<u32>(), aux, coinbase(&cfg.tx), cfg.ntx.clone().prop_flat_map(move |n| if n >= 8 { vec(t_plain.clone(), n) } else { vec(t.clone(), n) }), dup)
         .prop_map(|(version, time, bits, nonce, auxpow, coinbase, txs, dup_coinbase)| BlockSpec { version, time, bits, nonce, auxpow, coinbase, txs, dup_coinbase })
         .boxed()
 }
